@@ -1337,7 +1337,77 @@ def r9(ctx):
            "min()-ed end position makes the check vacuous): short reads succeed silently")
 
 
+# --------------------------------------------------------------------------- R10 / R11
+
+def r10(ctx):
+    repo = ctx.repo
+    ctx.rule("C02.R10", "bytes past the last template block are part of the datagram: the body parser keeps the remainder it "
+                        "leaves unread on the message, and serialize writes it back after the last block (an 'extended' "
+                        "datagram re-encodes to the bytes it came with, parsed or not)")
+    des_fns = class_methods_reachable(repo, repo.fn("UDPMessageDeserializer.parse_message_body"), depth=3)
+    ser_fns = class_methods_reachable(repo, repo.fn("UDPMessageSerializer.serialize"), depth=3)
+    rl = _template_loops(repo, des_fns)
+    ctx.require(len(rl) == 1, f"expected one template block loop in the body parser, found {len(rl)}")
+    rf, rloop = rl[0]
+    rm = _msg_param(rf, ctx)
+    readers = {st.path for st in stores(rf.node, into_defs=False) if st.kind == "assign" and isinstance(st.value, ast.Call)
+               and (call_attr(st.value) or "").endswith("BufferReader")}
+    kept = []
+    for st in stores(rf.node, into_defs=False):
+        if st.kind == "assign" and st.path.startswith(rm + ".") and st.value is not None and st.node.lineno > rloop.lineno:
+            if any(isinstance(c, ast.Call) and call_attr(c) in ("read_bytes", "read_rest", "read_all") and isinstance(c.func, ast.Attribute)
+                   and ap(c.func.value) in readers for c in ast.walk(st.value)):
+                kept.append(st)
+    ctx.ob("C02.R10", f"{rf.qual}: the bytes left unread after the last block are kept on the message", len(kept) >= 1, ctx.w(rf, rloop),
+           "what follows the last known block is read only to be logged / is ignored: once the body was parsed the message "
+           "re-encodes without it, while a never-parsed one is forwarded with it")
+    fields = {st.path.split(".", 1)[1] for st in kept}
+    wrote = []
+    for g in ser_fns:
+        gm = None
+        try:
+            gm = _msg_param(g, ctx)
+        except AnalysisError:
+            continue
+        for c in calls(g.node, into_defs=True):
+            if call_attr(c) == "write_bytes" and c.args and isinstance(c.args[0], ast.Attribute) and ap(c.args[0].value) == gm \
+                    and c.args[0].attr in fields:
+                wrote.append((g, c))
+    if kept:
+        ctx.ob("C02.R10", f"serialize writes the kept remainder ({sorted(fields)}) back into the body", len(wrote) >= 1,
+               repo.fn("UDPMessageSerializer.serialize").where, "the remainder is stored but never written when the body is re-encoded")
+    wl = _template_loops(repo, ser_fns)
+    for g, c in wrote:
+        after = all(c.lineno > l.lineno for f_, l in wl if f_ == g)
+        ctx.ob("C02.R10", f"{g.qual}: `{norm(c)}` comes after the template blocks", after, ctx.w(g, c),
+               "the remainder followed the last block on the wire")
+
+
+def r11(ctx):
+    repo = ctx.repo
+    ctx.rule("C02.R11", "numeric variables keep every bit pattern through unpack -> pack: no SPECS row decodes through a "
+                        "conversion that rewrites some encodings (struct's 32-bit float codes go through a C double, which "
+                        "quiets signalling NaNs)")
+    packer_cls = repo.cls("TemplateDataPacker", PACK)
+    specs = repo.class_attr(packer_cls, "SPECS")
+    ctx.require(isinstance(specs, ast.Dict), "TemplateDataPacker.SPECS is not a dict literal")
+    ev = ConstEval(repo, packer_cls.module)
+    lossy = []
+    for k, v in zip(specs.keys, specs.values):
+        if isinstance(v, ast.Call):
+            for a in list(v.args) + [kw_.value for kw_ in v.keywords]:
+                fmt = ev.ev(a)
+                if isinstance(fmt, str) and any(ch in fmt for ch in "fe"):
+                    lossy.append((ap(k) or "").split(".")[-1])
+    ctx.ob("C02.R11", "TemplateDataPacker.SPECS: 32-bit float variables keep every bit pattern through unpack -> pack",
+           not lossy, ctx.w(packer_cls.module, specs),
+           f"{sorted(lossy)} use struct codes 'f'/'e': unpack converts to a double and pack converts back, so a signalling NaN "
+           f"(exponent all ones, quiet bit clear) arrives as 7fa00000 and leaves as 7fe00000 once the body was parsed")
+
+
 def run(ctx):
+    r11(ctx)
+    r10(ctx)
     r9(ctx)
     r8(ctx)
     r7(ctx)
